@@ -72,6 +72,8 @@ def update_table(ctx, prog, rule):
     variants = [v["name"] for v in prog.adt("record::RecordName")["variants"]]
     R0 = Resolver(f)
     n_sites = len([1 for bi, t in f.calls(lambda c, t: c in ("pc_writer::update_min", "pc_writer::update_max"))])
+    if n_sites == 0:
+        return _update_table_by_stores(ctx, prog, rule, f, variants, R0)
     got = {}
     for name in variants:
         g = assume_record_name(f, name, variants, R0)
@@ -108,7 +110,92 @@ def update_table(ctx, prog, rule):
     ctx.floor(rule, "update_min/update_max call sites", n_sites, 2, semantic=False)
 
 
+def _update_table_by_stores(ctx, prog, rule, f, variants, R0):
+    """the update helpers were merged, renamed or written out: they are inlined into add_point, and the table is read
+    from the stores themselves.  Per record name (flow graph pruned under `p.name == Name`): which bound fields are
+    stored to, with which value, and which comparison lets each store happen."""
+    from simple_rules import assume_record_name, fn_view
+    import elems
+    n_stores = 0
+    for name, (holder, fmin, fmax, conv) in WANT.items():
+        g = assume_record_name(f, name, variants, R0)
+        v = fn_view(f, g)
+        R = Resolver(v, max_depth=24)
+        r0 = reach(g, [0])
+        stores = {}                      # field -> list of (block, kind whole|payload, value tree)
+        for n_, ds in v.defs().items():
+            for kind, payload, bi, si, place in ds:
+                if kind != "stmt" or bi not in r0 or len(place["proj"]) != 1 or place["proj"][0]["k"] != "deref":
+                    continue
+                dst = tree_str(strip_deep(R.local(place["local"])))
+                if not dst.startswith("arg1.%s." % holder) and "_bounds." not in dst:
+                    continue
+                fld = dst.rsplit(".", 1)[-1]
+                val = strip(R.rvalue(payload))
+                k = "payload"
+                if val[0] == "agg" and val[1][0] == "adt" and val[1][2] == "Some" and val[2]:
+                    k, val = "whole", strip(val[2][0])
+                stores.setdefault((dst.split(".")[1] if dst.count(".") >= 2 else "?", fld), []).append((bi, k, val))
+        n_stores += sum(len(x) for x in stores.values())
+        problems = []
+        if set(stores) != {(holder, fmin), (holder, fmax)}:
+            problems.append("fields stored to: %s" % sorted(stores))
+        vstr = None
+        for (h_, fld), sts in sorted(stores.items()):
+            for bi, k, val in sts:
+                ok_src = False
+                if val[0] == "call" and val[1].rsplit("::", 1)[-1] == conv and len(val[2]) >= 2:
+                    ev, ed = elems.elem_of(val[2][0]), elems.elem_of(val[2][1])
+                    ok_src = (ev is not None and ed is not None and strip(ev[0]) == ("param", 2) and ev[1] == []
+                              and is_self_field(strip(ed[0]), "prototype") and ed[1] == ["data_type"] and elems.same_position(ev, ed))
+                if not ok_src:
+                    problems.append("%s <- %s" % (fld, tree_str(strip_deep(val))[:80]))
+                vstr = vstr or tree_str(strip_deep(val))
+        # orientation: a payload store happens only on the edge "value beyond the current bound of that same field"; a
+        # field that is still None is filled (whole store of Some(value))
+        tests = [(bi, order_test(v, R, bi)) for bi in v.cfg() if bi in r0]
+        tests = [(bi, t) for bi, t in tests if t is not None]
+        for fld, role in ((fmin, "min"), (fmax, "max")):
+            sts = stores.get((holder, fld), [])
+            if not any(k == "whole" for _, k, _ in sts):
+                problems.append("%s is never initialised from None with Some(value)" % fld)
+            content = "arg1.%s.%s" % (holder, fld)
+            all_some = _reach_all_some(v, g, R, holder, fmin, fmax)
+            is_v = lambda t_: tree_str(strip_deep(t_)) == vstr
+            is_c = lambda t_: tree_str(strip_deep(t_)) == content
+            for bi, k, val in sts:
+                if k != "payload" and bi not in all_some:
+                    continue                  # initialisation: reachable only while a bound of the pair is still None
+                gated = False
+                for tb, t in tests:
+                    oe = order_edges(t, is_v, is_c) if role == "min" else order_edges(t, is_c, is_v)
+                    if oe is None:
+                        continue
+                    lt_succ, ge_succ = oe
+                    g2 = {a: [b_ for b_ in ss if not (a == tb and b_ == lt_succ)] for a, ss in g.items()}
+                    if bi in reach(g, [lt_succ]) and bi not in reach(g2, [0]):
+                        gated = True
+                if not gated:
+                    problems.append("the store into %s at %s is not gated by `value %s current %s`" % (fld, v.file_line(bi), "<" if role == "min" else ">", fld))
+        ctx.ob(rule, "bound-update/%s" % name, not problems,
+               "%s updates %s.%s / %s.%s from values[i].%s(&prototype[i].data_type): %s" % (name, holder, fmin, holder, fmax, conv, "; ".join(problems) if problems else "stores, values and gating comparisons agree"), where="src/pc_writer.rs")
+    ctx.floor(rule, "bound stores in add_point (update helpers inlined)", n_stores, 18, semantic=False)
+
+
+def _reach_all_some(v, g, R, holder, fmin, fmax):
+    """blocks reachable when both bounds of the pair are known to be Some"""
+    removed = []
+    for sw, some_s, none_s in option_tests(v, R, lambda t_: tree_str(strip_deep(t_)) in ("arg1.%s.%s" % (holder, fmin), "arg1.%s.%s" % (holder, fmax))):
+        if none_s != some_s:
+            removed.append((sw, none_s))
+    g2 = {a: [b_ for b_ in ss if (a, b_) not in removed] for a, ss in g.items()}
+    return reach(g2, [0])
+
+
 def orientation(ctx, prog, rule):
+    if not (prog.has_fn("pc_writer::update_min") and prog.has_fn("pc_writer::update_max")):
+        ctx.ob(rule, "orientation/inlined", True, "update_min / update_max do not exist as separate functions; the orientation of every bound store is decided inside add_point (bound-update/*)", nontrivial=False)
+        return
     for name, cmp_name in (("update_min", "gt"), ("update_max", "lt")):
         f = prog.fn("pc_writer::" + name)
         ctx.fn_seen(f)
